@@ -15,6 +15,7 @@ pub mod c14;
 pub mod c15;
 pub mod c16;
 pub mod c17;
+pub mod c18;
 #[cfg(feature = "backends")]
 pub mod c20;
 
@@ -39,6 +40,7 @@ pub fn dispatch(ctx: &Ctx) -> Option<(Report, Meta)> {
         "C15" => c15::run(ctx),
         "C16" => c16::run(ctx),
         "C17" => c17::run(ctx),
+        "C18" => c18::run(ctx),
         #[cfg(feature = "backends")]
         "C20" => c20::run(ctx),
         _ => return None,
